@@ -131,7 +131,13 @@ def expected_position(st, start, end, coding_only, completely_within, expand):
 
 
 def result_state(st, members, bounds, cw):
-    return {"children": members, "bounds": tuple(bounds), "win": inter(st["win"], bounds), "cw": cw, "L": st["L"]}
+    """`held`: when the result has the bounds of the source nothing is subset and the result may keep the source's parent
+    unchanged (its sequence object then covers the source's whole window, e.g. the whole chromosome for a collection with
+    explicit bounds inside it); members inside the bounds read the same bases either way"""
+    out = {"children": members, "bounds": tuple(bounds), "win": inter(st["win"], bounds), "cw": cw, "L": st["L"]}
+    if st["bounds"] is not None and tuple(bounds) == tuple(st["bounds"]):
+        out["held"] = st["win"]
+    return out
 
 
 def expected_by_child_ids(st, ids):
